@@ -147,6 +147,12 @@ class C04(Prop):
         seen = set()
         while len(keys) < nkeys:
             k = legal_key(rng, len(prefix), unicode_ok)
+            if prefix and keys and rng.random() < 0.25 and len(prefix) * 2 + 8 <= 250:
+                # a caller key that itself starts with the prefix bytes, next to the key without them
+                other = rng.choice(keys)
+                ob = other.encode("utf8" if unicode_ok else "ascii") if isinstance(other, str) else other
+                if len(prefix) + len(prefix) + len(ob) <= 250:
+                    k = prefix + ob
             wk = wire_key(k, prefix, unicode_ok)
             if wk not in seen:
                 seen.add(wk)
@@ -422,7 +428,7 @@ class C04(Prop):
         return ("key-exactly-250-bytes", "unicode-key", "value-larger-than-recv-size", "value-at-item-limit",
                 "one-shot-iterator-keys", "set-of-keys", "dict-view-keys", "duplicate-keys", "compressed-flag-set",
                 "pickle-object-roundtrip", "value-with-protocol-text", "cut-between-value-CR-and-LF",
-                "value-ending-in-CR")
+                "value-ending-in-CR", "key-starting-with-the-prefix-bytes")
 
     def probes(self, scn, res):
         p = {}
@@ -433,6 +439,8 @@ class C04(Prop):
                 p["key-exactly-250-bytes"] = 1
             if isinstance(kk, str) and not kk.isascii():
                 p["unicode-key"] = 1
+            if prefix and isinstance(kk, bytes) and kk.startswith(prefix):
+                p["key-starting-with-the-prefix-bytes"] = 1
             vv = codec.dec(v)
             if isinstance(vv, bytes):
                 if len(vv) > scn["world"]["knobs"]["recv_size"]:
